@@ -220,7 +220,7 @@ def case_job(args: tuple[Any, ...]) -> dict[str, Any]:
                 finally:
                     s.close()
     elif kind == "name":
-        for nv in ("different", "different+mac", "empty"):
+        for nv in ("different", "different+mac", "empty", "case", "longer"):
             for split_mode in ("one-chunk", "after-hello"):
                 s = Session(nv, EXPECTED, APP)
                 try:
